@@ -739,6 +739,102 @@ fn check_table(case: &TableCase) -> Result<CaseInfo, Failure> {
             }
         }
     }
+    // a table made on another platform (figures that are not the host's), loaded from its map
+    {
+        fn foreign_map(word: usize) -> BTreeMap<String, DynamicTypeInfo> {
+            let mut map = BTreeMap::new();
+            let mut put = |name: &str, size: usize, align: usize, uninit: bool| {
+                map.insert(name.to_string(), DynamicTypeInfo { info: TypeInfo { name: name.to_string(), size, align }, allow_uninit: uninit });
+            };
+            put(&HostTypeResolver.type_info::<usize>().name, word, word, true);
+            put(&HostTypeResolver.type_info::<u64>().name, 8, word.min(8), true);
+            put(&HostTypeResolver.type_info::<u32>().name, 4, word.min(4), true);
+            put(&HostTypeResolver.type_info::<String>().name, 3 * word, word, false);
+            put(&HostTypeResolver.type_info::<Vec<()>>().name, 3 * word, word, false);
+            put(&HostTypeResolver.type_info::<Box<str>>().name, 2 * word, word, false);
+            map
+        }
+        let answers = |t: &StaticTypeResolver| -> Result<Vec<TypeInfo>, Failure> {
+            catch_unwind(AssertUnwindSafe(|| {
+                vec![t.type_info::<usize>(), t.type_info::<u64>(), t.type_info::<u32>(), t.type_info::<String>(), t.type_info::<Vec<()>>(), t.type_info::<Box<str>>()]
+            }))
+            .map_err(|e| Failure::new("lookup-panicked", format!("typed lookups in a table loaded from a map: {}", panic_message(e))))
+        };
+        let expected = |word: usize| -> Vec<TypeInfo> {
+            let m = foreign_map(word);
+            [
+                HostTypeResolver.type_info::<usize>().name,
+                HostTypeResolver.type_info::<u64>().name,
+                HostTypeResolver.type_info::<u32>().name,
+                HostTypeResolver.type_info::<String>().name,
+                HostTypeResolver.type_info::<Vec<()>>().name,
+                HostTypeResolver.type_info::<Box<str>>().name,
+            ]
+            .iter()
+            .map(|n| m[n].info.clone())
+            .collect()
+        };
+        // the same variable holds, one after the other, tables of platforms with words of 2, 4 and 16 bytes:
+        // each answers its own figures, whatever an earlier table (at the same address) answered
+        let words = [2usize, 4, 16];
+        let first = case.spaces.first().copied().unwrap_or(0) as usize % 3;
+        let mut table = StaticTypeResolver::from(foreign_map(words[first]));
+        for round in 0..3 {
+            let word = words[(round + first) % 3];
+            if round > 0 {
+                table = StaticTypeResolver::from(foreign_map(word));
+            }
+            let got = answers(&table)?;
+            if got != expected(word) {
+                return Err(Failure::new(
+                    "table-answer-differs",
+                    format!("a table loaded from a map (word size {}) answers {:?}, registered {:?}", word, got, expected(word)),
+                ));
+            }
+            checked.set(checked.get() + 6);
+        }
+        // completing the table with the standard types may be refused (the names are taken), but it never
+        // changes what was registered
+        let word = words[(2 + first) % 3];
+        let completed = catch_unwind(AssertUnwindSafe(|| {
+            if case.std_first {
+                table.add_std_types();
+            } else {
+                table.add_all_types();
+            }
+        }));
+        let got = answers(&table)?;
+        if got != expected(word) {
+            return Err(Failure::new(
+                "table-answer-differs",
+                format!(
+                    "a table loaded from a map (word size {}) answers {:?} after add_{}_types() ({}), it had registered {:?}",
+                    word,
+                    got,
+                    if case.std_first { "std" } else { "all" },
+                    if completed.is_ok() { "which returned" } else { "which panicked" },
+                    expected(word)
+                ),
+            ));
+        }
+        checked.set(checked.get() + 6);
+        // a builder that owns such a table records, for a copied datum, the information of the datum (not the table's)
+        let mut b = NativeRecordDefinitionBuilder::new(StaticTypeResolver::from(foreign_map(word)));
+        let given = TypeInfo { name: HostTypeResolver.type_info::<u64>().name, size: 8, align: 8 };
+        let id = catch_unwind(AssertUnwindSafe(|| {
+            b.copy_datum(&DatumDefinition::new(DatumId::from(0usize), "copied".to_string(), NativeDatumDetails::new(0, given.clone(), true)))
+        }))
+        .map_err(|e| Failure::new("lookup-panicked", format!("copy_datum under an owned table: {}", panic_message(e))))?
+        .map_err(|e| Failure::new("type-info-differs", format!("copy_datum refused: {}", e)))?;
+        let recorded = b[id].details().type_info().clone();
+        if recorded != given || !b[id].details().allow_uninit() {
+            return Err(Failure::new(
+                "type-info-differs",
+                format!("datum copied with {:?} under a builder owning a table that says otherwise for that name records {:?}", given, recorded),
+            ));
+        }
+        checked.set(checked.get() + 1);
+    }
     Ok(CaseInfo {
         nontrivial: custom.len() >= 2,
         labels: vec!["table_case"],
